@@ -19,7 +19,8 @@ EXPLANATION = (
     "Decimal(<parameter|constant>) or self._dcontext.add(...), the context always traps Inexact, the retry "
     "loop raises the precision in the Inexact handler; (e) fill stores the context of the filled value; "
     "(f) every constructor parameter reaches state or a call; (g) a template field kept as a private deep copy "
-    "is used by reset only through copy.deepcopy.  Does not decide that the aggregate is numerically the "
+    "is used by reset only through copy.deepcopy; (h) no parameter default of an accumulator's methods is a mutable "
+    "object (a default is created once and shared by all instances built without that argument).  Does not decide that the aggregate is numerically the "
     "documented one.")
 RULES = {
     "C09-a": "AGREE: fields written while filling/computing (minus derived ones) are re-initialised by reset",
